@@ -92,7 +92,14 @@ class TreeVal(SVal):
         return TK(self.t) == 0
 
     def py_truth(self, cx):
-        raise Unsupported("truthiness of a tree value")
+        k = z3.String(fresh_name("tk"))
+        return z3.If(TK(self.t) == 0, False, z3.If(TK(self.t) == 1, z3.Length(SV(self.t)) > 0, z3.Exists([k], HK(self.t, k))))
+
+    def meth_find(self, cx, sub):
+        return SStr(SV(self.t)).py_call_method(cx, "find", [sub], {})
+
+    def meth_startswith(self, cx, sub):
+        return SStr(SV(self.t)).py_call_method(cx, "startswith", [sub], {})
 
     def py_isinstance(self, cx, c):
         if c == "dict":
@@ -375,6 +382,32 @@ class Status(FnSpec):
         ]
 
 
+class EntityType(FnSpec):
+    file = "util/diff.py"
+    qual = "DiffNode._type"
+    props = ("C18",)
+
+    def init(self):
+        self.bindings["DiffNode"] = StatusNS()
+
+    def setup(self, cx):
+        for ax in axioms():
+            cx.assume(ax)
+        return A(self=SRef.fresh("DiffNode", "node"), entity=TreeVal(z3.Const("entity", Tree)))
+
+    def ensures(self, cx, a, res):
+        e = a.entity.t
+        name = res.name if isinstance(res, StatusVal) else ("None" if res is None else "?")
+        is_link = z3.And(TK(e) == 1, z3.PrefixOf(z3.StringVal("symlink:"), SV(e)))
+        absent = z3.Or(TK(e) == 0, z3.And(TK(e) == 1, SV(e) == z3.StringVal("")))
+        return [
+            ("directory-iff-dict-also-when-empty", z3.BoolVal(name == "directory") == (TK(e) == 2), "every dict is a directory — an EMPTY directory is still a directory, not an absent entry"),
+            ("absent-iff-none", z3.BoolVal(name == "None") == absent, "no type exactly for an absent entry"),
+            ("symlink-iff-symlink-text", z3.BoolVal(name == "symlink") == is_link, "symlink exactly for 'symlink:<target>' leaves"),
+            ("else-file", z3.BoolVal(name == "file") == z3.And(TK(e) == 1, z3.Not(is_link), SV(e) != z3.StringVal("")), "any other leaf is a file"),
+        ]
+
+
 class StatusVal(SVal):
     def __init__(self, name):
         self.name = name
@@ -382,7 +415,7 @@ class StatusVal(SVal):
 
 class StatusNS(SVal):
     def py_getattr(self, cx, name):
-        if name == "Status":
+        if name in ("Status", "ObjType"):
             return self
         return StatusVal(name)
 
@@ -390,7 +423,7 @@ class StatusNS(SVal):
 def build(reg):
     reg.set_class_home("DiffNode", "util/diff.py")
     reg.ctors["DiffNode"] = node_ctor
-    specs = [Compare(), Status()]
+    specs = [Compare(), Status(), EntityType()]
     for s in specs:
         reg.add(s)
     return {
